@@ -2498,5 +2498,162 @@ def gopp_tables():
 
 EXTRACTORS += [gopp_tables]
 
+
+
+# ---------------------------------------------------------------- C12/C04 round 11: the parser's grammar functions
+GRAM_FILES = ["file.rs", "expr.rs", "pattern.rs", "path.rs", "stmt.rs"]
+
+def gram_strip(text):
+    """Rust source with comments, string and char literals blanked (same length), for structural scans"""
+    out, i, n = list(text), 0, len(text)
+    while i < n:
+        c = text[i]
+        if text.startswith("//", i):
+            j = text.find("\n", i); j = n if j < 0 else j
+            for k in range(i, j): out[k] = " "
+            i = j; continue
+        if c == '"':
+            j = i + 1
+            while j < n and text[j] != '"':
+                j += 2 if text[j] == "\\" else 1
+            for k in range(i + 1, j): out[k] = " "
+            i = j + 1; continue
+        if c == "'" and i + 2 < n and text[i + 2] == "'":
+            out[i + 1] = " "; i += 3; continue
+        i += 1
+    return "".join(out)
+
+def gram_functions(text):
+    """[(name, body_text, [loop head text…])] for every `fn` of a file, in source order"""
+    clean = gram_strip(text)
+    res = []
+    for m in re.finditer(r"^(?:pub(?:\([a-z]+\))? )?fn (\w+)\s*\(", clean, flags=re.M):
+        i = clean.index("{", clean.index(")", m.end()) if "->" not in clean[m.end():clean.index("{", m.end())] else m.end())
+        # the body starts at the first `{` after the signature's closing parenthesis / return type
+        depth, j = 0, m.end() - 1
+        while True:
+            if clean[j] == "(": depth += 1
+            elif clean[j] == ")":
+                depth -= 1
+                if depth == 0: break
+            j += 1
+        i = clean.index("{", j)
+        depth, k = 0, i
+        while True:
+            if clean[k] == "{": depth += 1
+            elif clean[k] == "}":
+                depth -= 1
+                if depth == 0: break
+            k += 1
+        body = clean[i:k + 1]
+        loops = [" ".join(text[i + lm.start():i + lm.end()].split()) for lm in re.finditer(r"(?<![\[\w])(?:while\s[^{]*|loop\s*)\{", body)]
+        loops = [l[:-1].strip() for l in loops]
+        res.append((m.group(1), text[i:k + 1], loops))
+    return res
+
+def gram_const_set(text, name, tmac, variants):
+    m = re.search(r"const " + name + r": &\[TokenKind\] = &\[(.*?)\];", text, re.S)
+    if not m:
+        raise RuntimeError(f"grammar: const {name} not found")
+    names = c04_t_names(m.group(1))
+    if not names or m.group(1).count("T!") != len(names):
+        raise RuntimeError(f"grammar: const {name}: unexpected element")
+    return [variants.index(gram_tk(tmac, t)) for t in names]
+
+def gram_tk(tmac, spelling):
+    for key in (spelling, "'" + spelling + "'"):
+        if key in tmac:
+            return tmac[key]
+    raise RuntimeError(f"grammar: T![{spelling}] is not in the T! macro")
+
+def extract_grammar():
+    """token/syntax kind numbers, Display names, first/recovery sets, binding powers and the list of grammar functions
+    with their loop heads (crates/parser/src/{file,expr,pattern,path,stmt}.rs) -> Gen/Grammar.lean"""
+    lex = c20_read("crates/lexer/src/lib.rs")
+    syn = c20_read("crates/parser/src/syntax.rs")
+    tmac = _t_macro(lex)
+    m = re.search(r"pub enum TokenKind \{(.*?)\n\}", lex, re.S)
+    variants = [v for v, _ in _enum_variants_with_attrs(m.group(1))]
+    sm = re.search(r"#\[repr\(u16\)\]\s*pub enum MySyntaxKind \{(.*?)\n\}", syn, re.S)
+    skinds = [v for v, _ in _enum_variants_with_attrs(sm.group(1))]
+    dm = re.search(r"impl std::fmt::Display for TokenKind \{\s*fn fmt\(&self, f: &mut std::fmt::Formatter<'_>\) -> std::fmt::Result \{\s*"
+                   r"f\.write_str\(match self \{(.*?)\n        \}\)", lex, re.S)
+    if not dm:
+        raise RuntimeError("grammar: `impl Display for TokenKind` changed shape")
+    disp = {}
+    for l in dm.group(1).strip().splitlines():
+        mm = re.fullmatch(r'\s*Self::(\w+) => "((?:[^"\\]|\\.)*)",', l)
+        if not mm:
+            raise RuntimeError(f"grammar: Display arm not understood: {l!r}")
+        disp[mm.group(1)] = mm.group(2).encode().decode("unicode_escape")
+    if set(disp) != set(variants):
+        raise RuntimeError("grammar: Display does not cover every TokenKind")
+    src = {f: c20_read("crates/parser/src/" + f) for f in GRAM_FILES}
+    psrc = c20_read("crates/parser/src/parser.rs")
+    sets = {
+        "exprFirst": gram_const_set(src["expr.rs"], "EXPR_FIRST", tmac, variants),
+        "patternFirst": gram_const_set(src["pattern.rs"], "PATTERN_FIRST", tmac, variants),
+        "typeFirst": gram_const_set(src["file.rs"], "TYPE_FIRST", tmac, variants),
+        "paramListRecovery": gram_const_set(src["file.rs"], "PARAM_LIST_RECOVERY", tmac, variants),
+    }
+    body = c20_fn_body(psrc, "should_consume_on_expect_failure")
+    mm = re.search(r"!matches!\(\s*kind,(.*?)\)\s*\}", body, re.S)
+    if not mm:
+        raise RuntimeError("grammar: should_consume_on_expect_failure changed shape")
+    sets["expectKeeps"] = [variants.index(gram_tk(tmac, t)) for t in c04_t_names(mm.group(1))]
+    # the shape of expect / advance_with_error / open / close / precede / completed the model relies on
+    for frag, what in [
+        ('if cur_kind == T![eof] || !should_consume_on_expect_failure(cur_kind) {\n            self.events.push(Event::Error(err_msg));\n            return;\n        }\n\n        self.advance_with_error(&err_msg);', "Parser::expect"),
+        ('"expect {:?}, actual {:?}",\n            kind.to_string(),\n            cur_kind.to_string()', "Parser::expect message"),
+        ('let m = self.open();\n        self.events.push(Event::Error(error.to_string()));\n        self.advance();\n        self.close(m, MySyntaxKind::ErrorTree);', "Parser::advance_with_error"),
+        ('*forward_parent = Some(m.index - self.index)', "MarkerClosed::precede"),
+        ('p.events.push(Event::Close);\n\n        MarkerClosed { index: self.index }', "MarkerOpened::completed"),
+    ]:
+        if frag not in psrc:
+            raise RuntimeError(f"grammar: {what} changed shape (the model's primitive no longer mirrors it)")
+    def bp(fname, text, value_re):
+        ret, b = _bp_fn_body(text, fname)
+        return _arms(b, tmac, value_re, fname)
+    prefix = [(variants.index(v), vals[0]) for v, _, vals in bp("prefix_binding_power", src["expr.rs"], r"(\d+)")]
+    postfix = [(variants.index(v), vals[0]) for v, _, vals in bp("postfix_binding_power", src["expr.rs"], r"\((\d+), \(\)\)")]
+    infix = [(variants.index(v), vals[0], vals[1]) for v, _, vals in bp("infix_binding_power", src["expr.rs"], r"\((\d+), (\d+)\)")]
+    tinfix = [(variants.index(v), vals[0], vals[1]) for v, _, vals in bp("type_infix_binding_power", src["file.rs"], r"\((\d+), (\d+)\)")]
+    fns = []
+    for f in GRAM_FILES:
+        for name, body, loops in gram_functions(src[f]):
+            fns.append((f, name, loops, body.count("assert!(p.at"), len(re.findall(r"\bp\.(?:open|precede)\(|\.precede\(p\)", body))))
+    if len(fns) < 60:
+        raise RuntimeError("grammar: fewer than 60 grammar functions found")
+    def nl(xs): return "[" + ", ".join(str(x) for x in xs) + "]"
+    L = ["/- GENERATED by tools/extract.py from crates/lexer/src/lib.rs, crates/parser/src/{syntax,parser,file,expr,pattern,path,stmt}.rs — do not edit. -/",
+         "namespace Goml.Gen.Gram", "",
+         "/-! `TokenKind as u16` -/"]
+    for i, v in enumerate(variants):
+        L.append(f"def T_{v} : Nat := {i}")
+    L += ["", "/-! `MySyntaxKind as u16` -/"]
+    for i, v in enumerate(skinds):
+        if i >= len(variants) or variants[i] != v:
+            L.append(f"def K_{v} : Nat := {i}")
+    L += ["", "/-- `impl Display for TokenKind`, indexed by discriminant -/",
+          "def displayNames : List String := [" + ", ".join(_lean_str(disp[v]) for v in variants) + "]", "",
+          "/-- `#[derive(Debug)]` names, indexed by discriminant -/",
+          "def debugNames : List String := [" + ", ".join(_lean_str(v) for v in variants) + "]", ""]
+    docs = {"exprFirst": "`EXPR_FIRST` (expr.rs)", "patternFirst": "`PATTERN_FIRST` (pattern.rs)", "typeFirst": "`TYPE_FIRST` (file.rs)",
+            "paramListRecovery": "`PARAM_LIST_RECOVERY` (file.rs)",
+            "expectKeeps": "kinds `Parser::expect` reports without consuming (`should_consume_on_expect_failure` is false)"}
+    for k, v in sets.items():
+        L += [f"/-- {docs[k]} -/", f"def {k} : List Nat := {nl(v)}", ""]
+    L += ["/-- `prefix_binding_power`: (kind, r_bp) -/", "def prefixBp : List (Nat × Nat) := " + nl(f"({a}, {b})" for a, b in prefix), "",
+          "/-- `postfix_binding_power`: (kind, l_bp) -/", "def postfixBp : List (Nat × Nat) := " + nl(f"({a}, {b})" for a, b in postfix), "",
+          "/-- `infix_binding_power`: (kind, l_bp, r_bp) -/", "def infixBp : List (Nat × Nat × Nat) := " + nl(f"({a}, {b}, {c})" for a, b, c in infix), "",
+          "/-- `type_infix_binding_power`: (kind, l_bp, r_bp) -/", "def typeInfixBp : List (Nat × Nat × Nat) := " + nl(f"({a}, {b}, {c})" for a, b, c in tinfix), "",
+          "/-- every `fn` of the grammar files in source order: (file, name, loop heads, number of `assert!(p.at(..))`, number of markers opened) -/",
+          "def grammarFns : List (String × String × List String × Nat × Nat) := ["]
+    L += ["  " + ",\n  ".join(f"({_lean_str(f)}, {_lean_str(n)}, [{', '.join(_lean_str(l) for l in loops)}], {a}, {o})" for f, n, loops, a, o in fns), "]", "",
+          "end Goml.Gen.Gram", ""]
+    write_if_changed("Grammar.lean", "\n".join(L))
+
+EXTRACTORS += [extract_grammar]
+
 if __name__ == "__main__":
     main()
